@@ -227,19 +227,24 @@ def chain(index, rep, db):
     rets = [r for r in io.body if isinstance(r, ast.Return)]
     from .core import plain_text
     got = plain_text(inl.expr(rets[-1].value)) if rets and rets[-1].value is not None else ""
-    # returned = interpreter.interpret_results(Extractor(consts).extract_results(model, variables, time_consts), title), with this function's own parameters
-    want = f"{P[5]}.interpret_results(Extractor({P[1]}).extract_results({P[2]}, {P[3]}, {P[4]}), {P[-1]})" if len(P) >= 9 else None
-    rep.check(want is not None and got == want, rule, "wiring:same-solve",
+    # returned = interpreter.interpret_results(Extractor(consts).extract_results(model, variables, time_consts), title), each of them one of this
+    # function's own parameters (whatever their names and order)
+    m_w = re.fullmatch(r"(\w+)\.interpret_results\(Extractor\((\w+)\)\.extract_results\((\w+), (\w+), (\w+)\), (\w+)\)", got)
+    roles = dict(zip(("interpreter", "constants", "model", "variables", "time_consts", "title"), m_w.groups())) if m_w else {}
+    rep.check(bool(roles) and len(set(roles.values())) == 6 and set(roles.values()) <= set(P[1:]), rule, "wiring:same-solve",
               "results are not extracted from the (model, variables, time_consts, constants) of the solve being reported", loc=loc(RUN, io),
               detail=f"got {got}")
     ro = index.func(RUN, "ScenarioRunner.run_optimizer")
     call = [c for c in walk_no_nested(ro) if isinstance(c, ast.Call) and dotted(c.func) == "self.interpret_optimizer_results"]
-    ok = len(call) == 1 and len(call[0].args) >= 4
+    from .core import bind_args
+    bound = bind_args(call[0], io) if len(call) == 1 else {}
+    ok = bool(roles) and all(roles[r_] in bound for r_ in ("constants", "model", "variables", "time_consts"))
     if ok:
         inl_ro = Inliner(ro)
         RP = [a.arg for a in ro.args.args]
         from .core import through_helpers
-        a4 = [[plain_text(t_) for t_ in (through_helpers(index.methods(RUN, "ScenarioRunner"), inl_ro, a) or ["?"])] for a in call[0].args[:4]]
+        a4 = [[plain_text(t_) for t_ in (through_helpers(index.methods(RUN, "ScenarioRunner"), inl_ro, bound[roles[r_]]) or ["?"])]
+              for r_ in ("constants", "model", "variables", "time_consts")]
         # (constants, model, variables, monthly constants): constants and monthly constants are run_optimizer's own first two parameters,
         # model and variables are slots 0 and 1 of an optimiser call made with those same parameters (on every branch)
         ok = a4[0] == [RP[1]] and a4[3] == [RP[2]] and len(a4[1]) == len(a4[2]) >= 1
@@ -303,7 +308,22 @@ def coef(index, rep, db):
     P, rk, rf, rp = (Rat.atom((n,)) for n in ("P", "rk", "rf", "rp"))
     obj = Obj(cls, {"constants": Path(("consts",))}, "self")
     try:
-        res = it2.call_function(g, [P, rk, rf, rp, Path(("consts",))], {}, obj)
+        gp = [a.arg for a in g.args.args][1:]
+        by_word = {"fat": rf, "protein": rp, "kcals": rk}
+        gargs = {}
+        for i_, p_ in enumerate(gp):
+            words = [w for w in by_word if w in p_.lower() and "ratio" in p_.lower()]
+            if i_ == 0 and not words:
+                gargs[p_] = P
+            elif len(words) == 1:
+                gargs[p_] = by_word[words[0]]
+            elif "const" in p_.lower():
+                gargs[p_] = Path(("consts",))
+            else:
+                raise AnalysisError(f"extract_generic_results: parameter {p_!r} is none of (series, kcals/fat/protein ratio, constants)")
+        res = it2.call_function(g, [], gargs, obj)
+    except AnalysisError:
+        raise
     except Exception as e:
         raise AnalysisError(f"extract_generic_results outside the fragment: {e!r}")
     km = Rat.atom(K(("consts", "KCALS_MONTHLY"), None))
